@@ -295,18 +295,49 @@ def r4_copy_hooks(ctx):
     store = [s for s in f.own_nodes() if isinstance(s, ast.Assign) and
              text(s.targets[0]) == "self._root"]
     ctx.require(store, "C10.R4: Tensor.setRoot no longer assigns self._root")
-    rootname = text(store[0].value)
-    ok = False
-    for n_ in f.own_nodes():
-        if isinstance(n_, ast.If):
-            t = text(n_.test).replace(" ", "")
-            if t in ("%s.getOwner()isnotNone" % rootname, "%s.getOwner()" % rootname):
-                for b in n_.body:
-                    if isinstance(b, ast.Assign) and text(b.targets[0]) == rootname:
-                        v = text(b.value).replace(" ", "")
-                        if ("deepcopy(" in v or "pickle.loads" in v) and \
-                                cfg_of(f).dominates(n_, store[0]):
-                            ok = True
+    P = f.params[1] if len(f.params) > 1 else None
+    ctx.require(P, "C10.R4: Tensor.setRoot has no root parameter")
+    from ..cfg import atomic_guards as _ag
+    unowned = {pat.A("is", P + ".getOwner()", "None"),
+               pat.T(P + ".getOwner()", False)}
+    owned = {pat.A("is not", P + ".getOwner()", "None"), pat.T(P + ".getOwner()", True)}
+
+    def is_copy(v):
+        t = pat.inline(ctx, f, v).replace(" ", "")
+        return ("deepcopy(" in t or "pickle.loads(" in t) and P in t
+
+    def adopted_ok(value, stmt):
+        """`value` (bound / stored at `stmt`) is a copy, or the caller's
+        object on a path where it has no owner."""
+        if is_copy(value):
+            return True
+        if pat.inline(ctx, f, value).replace(" ", "") == P:
+            gs = {pat.catom(ctx, f, t, pol, False) for t, pol in _ag(stmt)}
+            return bool(gs & unowned)
+        return False
+
+    ok = True
+    for st in store:
+        sv = st.value
+        if not isinstance(sv, ast.Name):
+            ok = ok and adopted_ok(sv, st)
+            continue
+        facts, is_param = ctx.ty.facts_at(f, sv.id, sv)
+        for fa in facts:
+            if fa.kind != "expr" or fa.path or not adopted_ok(fa.value, fa.stmt):
+                ok = False
+        if is_param:
+            # the parameter itself reaches the store: every path on which it
+            # is owned must have rebound it to a copy first
+            dom = bool({pat.catom(ctx, f, t, pol, False) for t, pol in _ag(st)} & unowned)
+            for n_ in f.own_nodes():
+                if isinstance(n_, ast.If) and cfg_of(f).dominates(n_, st):
+                    for pol, blk in ((True, n_.body), (False, n_.orelse)):
+                        if pat.catoms(ctx, f, n_.test, pol, False) & owned and any(
+                                isinstance(b, ast.Assign) and text(b.targets[0]) == sv.id
+                                and is_copy(b.value) for b in blk):
+                            dom = True
+            ok = ok and dom
     if ok:
         ctx.ok("C10.R4", f, store[0], "an already-owned root is deep-copied "
                "before it is adopted")
